@@ -202,6 +202,17 @@ impl<D: StorageData> StorageProbe<D> {
         self.storage.len() == 0
     }
 
+    /// Copy of the storage under a new name (as used by `Db::copy`).
+    pub fn copy(&self, name: &str) -> Result<Self, DbError> {
+        Ok(Self {
+            storage: self.storage.copy(name)?,
+        })
+    }
+
+    /// Raw bytes of the underlying data and a rendering of the record table.
+    pub fn raw_state(&self) -> Result<(Vec<u8>, String), DbError> {
+        self.storage.verif_state()
+    }
 }
 
 /// Public wrapper of the crate-internal persistent hash multi map
